@@ -49,6 +49,8 @@ def coq_op(op):
             rk = 'RSetKs'
         elif kind == 'schema':
             rk = 'RSchema'
+        elif kind == 'unprepared':
+            rk = 'RUnprepared'
         else:
             rk = 'RJunk'
         return '(Resp %d %s)' % (op[1], rk)
@@ -62,6 +64,10 @@ def coq_op(op):
         return 'AddCb'
     if k == 'result':
         return 'Result'
+    if k == 'presp':
+        return '(PResp %d %s)' % (op[1], {'prepared': 'PPrepared', 'mismatch': 'PMismatch', 'error': 'PError', 'connerr': 'PConnErr', 'junk': 'PJunk'}[op[2]])
+    if k == 'foreign':
+        return '(Foreign %s)' % z(op[1])
     if k == 'shutdown':
         return 'Shutdown'
     if k == 'refresh':
@@ -122,6 +128,8 @@ class Oracle(object):
             return 'init'
         if op[0] == 'resp':
             return 'resp-%s' % op[2]
+        if op[0] == 'presp':
+            return 'presp-%s' % op[1 + 1]
         if op[0] == 'fire':
             return 'fire'
         return op[0]
@@ -163,6 +171,10 @@ class Oracle(object):
                     self._add('C14', 'result-mismatch.%s' % name, 'callback got %r but result() would not return it' % (p['cb'][0],), i)
                 if neb and not (f._event.is_set() and not fr_set and w.canon_exc(f._final_exception) == p['eb'][0]):
                     self._add('C14', 'result-mismatch.%s' % name, 'errback got %r but result() would not raise it' % (p['eb'][0],), i)
+        # ---- C14 (for the OTHER statement): this future never withdraws a request it did not send
+        for (h, rid) in w.foreign_intact():
+            self._add('C14', 'foreign-request-withdrawn.%s' % name,
+                      'the request of another statement in flight on h%d (stream %d) was unregistered by this future: its answer will be dropped, it never completes' % (h, rid), i)
         # ---- C14: outcome delivered once everything is answered / the timeout fired
         answered = bool(w.attempts) and not w.open_attempts() and not w.queue and not w.refreshes and not any(ch['waiting'] for ch in w.chains)
         if answered or self.timeout_done:
@@ -232,6 +244,8 @@ def random_resp(rng, a):
         return ['resp', a, 'setks', None, None]
     if r < 0.47:
         return ['resp', a, 'schema', None, None]
+    if r < 0.54:
+        return ['resp', a, 'unprepared', None, None]
     if r < 0.80:
         return ['resp', a, 'retry', rng.randrange(4), rng.choice(H.RETRY_CLASSES)]
     if r < 0.93:
@@ -251,7 +265,12 @@ def random_walk(rng, cfg, nsteps, punctual, illegal_p=0.05, resp_weight=3):
             cand += [['send']] * 12
         else:
             for a in w.open_attempts():
-                cand += [random_resp(rng, a)] * resp_weight
+                if w.attempts[a]['prep']:
+                    cand += [['presp', a, rng.choice(['prepared', 'prepared', 'prepared', 'mismatch', 'error', 'connerr', 'junk'])]] * max(resp_weight, 1)
+                else:
+                    cand += [random_resp(rng, a)] * resp_weight
+            if rng.random() < 0.08:
+                cand += [['foreign', rng.choice(hosts)]] * 3
         due = w.due_timers()
         for k in due:
             cand += [['fire', k]] * 4
@@ -285,6 +304,7 @@ def random_walk(rng, cfg, nsteps, punctual, illegal_p=0.05, resp_weight=3):
         if rng.random() < illegal_p:
             cand = [['resp', rng.randint(0, 4), 'rows', False, None], ['fire', rng.randint(0, 4)], ['run', rng.randint(0, 3)],
                     ['ksreport', rng.randint(0, 1), rng.choice(hosts), False], ['refresh', rng.randint(0, 1)],
+                    ['presp', rng.randint(0, 3), 'prepared'],
                     ['nextpage', hosts], ['result']]
             if punctual:
                 cand = [c for c in cand if c[0] != 'tick']
@@ -297,7 +317,8 @@ def random_walk(rng, cfg, nsteps, punctual, illegal_p=0.05, resp_weight=3):
 
 
 # ---------------------------------------------------------------------------------------------- exhaustive small scope
-def enumerate_orderings(cfg, kinds, max_depth, budget, allow_nextpage=True, final_tick=100000, shutdown_at=None):
+def enumerate_orderings(cfg, kinds, max_depth, budget, allow_nextpage=True, final_tick=100000, shutdown_at=None,
+                        pkinds=('prepared', 'mismatch', 'connerr')):
     """All orderings of: a response (each kind) on any open attempt, the next due timer (clock moved to its due time
     first), any queued task, one page fetch.  Depth-first, each node replays its history on a fresh real future.
     Yields complete histories (leaves).  -> generator of ops; sets enumerate_orderings.capped."""
@@ -315,6 +336,10 @@ def enumerate_orderings(cfg, kinds, max_depth, budget, allow_nextpage=True, fina
         nxt = []
         if len(ops) < max_depth:
             for a in w.open_attempts():
+                if w.attempts[a]['prep']:
+                    for pk in pkinds:
+                        nxt.append(([['presp', a, pk]], pages))
+                    continue
                 for (kind, arg, cls) in kinds:
                     nxt.append(([['resp', a, kind, arg, cls]], pages))
             live = w.live_timers()
@@ -405,6 +430,30 @@ def directed_histories():
                     out.append((cfg, ops + fire_until_quiet(cfg, ops) + [['result']], True))
             out.append((cfg, [['addcb'], ['send'], ['resp', 0, 'schema', None, None], ['shutdown'], ['refresh', 0], ['result']], True))
             out.append((cfg, [['addcb'], ['send'], ['resp', 0, 'retry', 1, 'Overloaded'], ['shutdown'], ['run', 0], ['resp', 1, 'retry', 1, 'ConnShutdown'], ['result']], True))
+            # UNPREPARED answer -> re-prepare on the executor -> PREPARE -> its answer -> re-execute; Session.shutdown() at each point
+            base = [['addcb'], ['send'], ['resp', 0, 'unprepared', None, None], ['run', 0]]
+            for pk in ('prepared', 'mismatch', 'error', 'connerr', 'junk'):
+                tail = [['presp', 1, pk], ['run', 0], ['resp', 2, 'rows', False, None], ['result']]
+                out.append((cfg, base + tail, True))
+                for cut in range(2, len(base + tail)):
+                    ops = (base + tail)[:cut] + [['shutdown']] + (base + tail)[cut:]
+                    out.append((cfg, ops + fire_until_quiet(cfg, ops) + [['result']], True))
+            for st in ('noconn', 'sendfail', 'shutdown', 'missing'):
+                ops = [['addcb'], ['send'], ['resp', 0, 'unprepared', None, None], ['pools', {1: st, 2: 'ok', 3: 'ok'}], ['run', 0]]
+                out.append((cfg, ops, True))
+                ops = base + [['pools', {1: st, 2: 'ok', 3: 'ok'}], ['presp', 1, 'prepared'], ['run', 0]]
+                out.append((cfg, ops, True))
+            # a connection shared with another statement: stream ids are recycled.  The other statement's request must survive
+            # whatever this future does with ITS stream ids (refused sends, answers, timeouts)
+            if T is not None:
+                for head in ([['addcb'], ['send'], ['pools', {1: 'ok', 2: 'sendfail', 3: 'sendfail'}], ['resp', 0, 'retry', 1, 'ReadTimeout'], ['run', 0]],
+                             [['addcb'], ['send'], ['pools', {1: 'ok', 2: 'sendfail', 3: 'noconn'}]] + ([['tick', 100], ['fire', 0]] if specs else [['resp', 0, 'retry', 1, 'Overloaded'], ['run', 0]]),
+                             [['addcb'], ['send'], ['resp', 0, 'retry', 0, 'ReadTimeout']],
+                             [['addcb'], ['send'], ['resp', 0, 'rows', False, None]],
+                             [['addcb'], ['send'], ['resp', 0, 'unprepared', None, None], ['run', 0], ['presp', 1, 'prepared']]):
+                    for fh in (1, 2, 3):
+                        ops = head + [['pools', {1: 'ok', 2: 'ok', 3: 'ok'}], ['foreign', fh]]
+                        out.append((cfg, ops + fire_until_quiet(cfg, ops) + [['tick', 5000]], True))
             # USE statement: SET_KEYSPACE answer, then the pools report their internal USE in every order, each may fail
             import itertools
             for order in itertools.permutations([1, 2, 3]):
